@@ -359,5 +359,6 @@ func ruleC17(w *World, r *Report) {
 	}
 	// the keeper (shared by all client types) stores what the accepted header defines
 	k.keeperUpdateRule("C17")
+	k.sigHeaderRule("C17.seal.sighash")
 	r.MinInstances("C17.", 38)
 }
